@@ -1538,15 +1538,44 @@ where
         }
 
         // For each topic, if a peer has grafted us, then we necessarily must be in their mesh
-        // and they must be subscribed to the topic. Ensure we have recorded the mapping.
-        for topic in &topics {
-            if connected_peer.topics.insert(topic.clone()) {
-                #[cfg(feature = "metrics")]
-                if let Some(m) = self.metrics.as_mut() {
-                    m.inc_topic_peers(topic);
+        // and they must be subscribed to the topic. Ensure we have recorded the mapping, subject
+        // to the subscription filter like any other subscription of the peer.
+        let implied_subscriptions = topics
+            .iter()
+            .filter(|topic| !connected_peer.topics.contains(*topic))
+            .map(|topic| Subscription {
+                action: SubscriptionAction::Subscribe,
+                topic_hash: topic.clone(),
+                options: Default::default(),
+            })
+            .collect::<Vec<_>>();
+        match self
+            .subscription_filter
+            .filter_incoming_subscriptions(&implied_subscriptions, &connected_peer.topics)
+        {
+            Ok(allowed) => {
+                for subscription in allowed {
+                    if connected_peer
+                        .topics
+                        .insert(subscription.topic_hash.clone())
+                    {
+                        #[cfg(feature = "metrics")]
+                        if let Some(m) = self.metrics.as_mut() {
+                            m.inc_topic_peers(&subscription.topic_hash);
+                        }
+                    }
                 }
             }
+            Err(s) => {
+                tracing::debug!(peer=%peer_id, "GRAFT: subscription filter error: {}", s);
+            }
         }
+        // A GRAFT for a topic the filter does not let us record for the peer is refused.
+        let filtered_topics = topics
+            .iter()
+            .filter(|topic| !connected_peer.topics.contains(*topic))
+            .cloned()
+            .collect::<HashSet<_>>();
 
         // we don't GRAFT to/from explicit peers; complain loudly if this happens
         if self.explicit_peers.contains(peer_id) {
@@ -1621,6 +1650,13 @@ where
                 do_px = false;
 
                 to_prune_topics.insert(topic_hash.clone());
+                continue;
+            }
+
+            // the subscription filter does not allow this topic for the peer
+            if filtered_topics.contains(&topic_hash) {
+                to_prune_topics.insert(topic_hash.clone());
+                do_px = false;
                 continue;
             }
 
